@@ -52,7 +52,76 @@ def determinism(args):
     return 1 if bad else 0
 
 
+def fidelity(args):
+    """compile a sample of the quick corpus against the UNWRAPPED /repo/join, real std threads and real tokio"""
+    sys.path.insert(0, os.path.join(ROOT, 'gen'))
+    import corpus as corpus_mod, simgen
+    fid = os.path.join(ROOT, 'fid')
+    bindir = os.path.join(fid, 'fcorpus', 'src', 'bin')
+    os.makedirs(bindir, exist_ok=True)
+    for f in os.listdir(bindir):
+        os.remove(os.path.join(bindir, f))
+    seed = int(os.environ.get('VERIF_SEED', '1'))
+    bins = []
+    for sl in ['steps', 'try', 'handler', 'nest', 'ops', 'wrap', 'pos']:
+        ps = corpus_mod.build_slice(sl, 'quick', seed)
+        for ci, ch in enumerate(corpus_mod.chunks(ps, corpus_mod.CHUNK.get(sl, 10))):
+            name = 'f_%s_%03d' % (sl, ci)
+            src = simgen.emit_chunk(ch).replace('fn main() { simrt::harness::main_entry(PROGS) }', 'fn main() { fidrt::main_entry(PROGS) }')
+            open(os.path.join(bindir, name + '.rs'), 'w').write(src)
+            bins.append(name)
+    t0 = time.time()
+    p = subprocess.run(['cargo', 'build', '--offline', '-p', 'fcorpus', '--bins'], cwd=fid, env=dict(ENV, CARGO_NET_OFFLINE='true'),
+                       stdout=subprocess.PIPE, stderr=subprocess.PIPE, text=True)
+    if p.returncode != 0:
+        print('fidelity build failed:\n' + p.stderr[-3000:])
+        return 2
+    print('fidelity: built %d bins against the unwrapped /repo/join + real tokio in %.0fs' % (len(bins), time.time() - t0))
+
+    def one(b):
+        q = subprocess.run([os.path.join(fid, 'target', 'debug', b)], env=ENV, stdout=subprocess.PIPE, stderr=subprocess.PIPE, text=True)
+        return b, q.returncode, [json.loads(l) for l in q.stdout.splitlines() if l.startswith('{')]
+    # simulated side: the same programs in the sim corpus binaries
+    def sim_names(b):
+        sb = b[2:]
+        q = subprocess.run([os.path.join(TARGET, sb), 'names'], env=ENV, stdout=subprocess.PIPE, stderr=subprocess.PIPE, text=True)
+        return [json.loads(l) for l in q.stdout.splitlines() if l.startswith('{')]
+    simn = {}
+    with ThreadPoolExecutor(max_workers=8) as ex:
+        for outs in ex.map(sim_names, bins):
+            for j in outs:
+                simn[(j['program'], j['kind'], j['pi'])] = j
+    runs = mism = names = 0
+    shown = 0
+    with ThreadPoolExecutor(max_workers=8) as ex:
+        for b, rc, outs in ex.map(one, bins):
+            for j in outs:
+                if j['type'] == 'names':
+                    sj = simn.get((j['program'], j['kind'], j['pi']))
+                    if sj is None or sj['names'] != j['names'] or sj['outcome'] != j['outcome']:
+                        mism += 1
+                        if shown < 10:
+                            shown += 1
+                            print('  NAME MISMATCH', b, json.dumps(j)[:300], json.dumps(sj)[:300])
+                    continue
+                if j['type'] == 'fidelity_stats':
+                    runs += j['runs']
+                    mism += j['mismatches']
+                    names += j['thread_name_comparisons']
+                elif shown < 10:
+                    shown += 1
+                    print('  MISMATCH', b, json.dumps(j)[:600])
+            if rc not in (0, 3):
+                print('  %s exited with %d' % (b, rc))
+                mism += 1
+    print('fidelity: %d real executions (real std threads / real tokio current-thread and multi-thread runtimes), %d thread-name comparisons with simulated runs, %d mismatches'
+          % (runs, names, mism))
+    return 1 if mism else 0
+
+
 def main(args):
+    if args and args[0] == 'fidelity':
+        return fidelity(args[1:])
     if args and args[0] == 'determinism':
         return determinism(args[1:])
     if args and args[0] == 'mutants':
